@@ -63,7 +63,7 @@ const char confuse_author[] = "Martin Hedenfalk <martin@bzero.se>";
 char *cfg_yylval = NULL;
 
 extern int  cfg_yylex(cfg_t *cfg);
-extern void cfg_yylex_destroy(void);
+extern void cfg_scan_destroy(void);
 extern int  cfg_lexer_include(cfg_t *cfg, const char *fname);
 extern void cfg_scan_fp_begin(FILE *fp);
 extern void cfg_scan_fp_end(void);
@@ -2190,7 +2190,7 @@ DLLIMPORT int cfg_free(cfg_t *cfg)
 	 * Only a context from cfg_init() is released by the user, a
 	 * section that merely is named "root" must not end up here.
 	 */
-	cfg_yylex_destroy();
+	cfg_scan_destroy();
 
 	return CFG_SUCCESS;
 }
